@@ -101,6 +101,11 @@ struct XlsxSpec {
     layout: u64,
     sheets: Vec<SheetSpec>,
     tables: Vec<TableSpec>,
+    /// (single-sheet workbooks) the sheet part sits directly in `xl/`: the workbook relationship has the
+    /// Target `worksheets`, the part is `xl/worksheets`, its relationships `xl/_rels/worksheets.rels`; a
+    /// relative table target `../tables/tableN.xml` then resolves against the package root (`tables/tableN.xml`)
+    #[serde(default)]
+    flat: bool,
 }
 
 #[derive(Clone, Debug, Serialize, Deserialize, PartialEq)]
@@ -440,6 +445,7 @@ fn sheet_children_after(pre: &str, kids: u8) -> Vec<Ev> {
 }
 
 fn build_xlsx(spec: &XlsxSpec) -> BuiltX {
+    let flat = spec.flat && spec.sheets.len() == 1;
     let mut l = if spec.layout == 0 { Layout::plain() } else { Layout::random(&mut Rng::new(spec.layout)) };
     // knobs that expose defects owned by other properties (C01/C16/C19) stay on their plain setting
     l.rel_prefix = "r".into();
@@ -524,7 +530,7 @@ fn build_xlsx(spec: &XlsxSpec) -> BuiltX {
             }
             rels.push(Ev::End("Relationships".into()));
             evs.push(Ev::End(q(&pre, "tableParts")));
-            my_parts.push((format!("xl/worksheets/_rels/sheet{}.xml.rels", i + 1), rels));
+            my_parts.push((if flat { "xl/_rels/worksheets.rels".to_string() } else { format!("xl/worksheets/_rels/sheet{}.xml.rels", i + 1) }, rels));
         }
         if sh.kids & 32 != 0 {
             evs.extend(el(&pre, "extLst", &[], el(&pre, "ext", &[("uri", "{78C0D931-6437-407d-A8EE-F0AAD7539E65}")], vec![])));
@@ -629,7 +635,7 @@ fn build_xlsx(spec: &XlsxSpec) -> BuiltX {
         }
         ws(&mut evs);
         evs.push(Ev::End(q(&pre, "table")));
-        my_parts.push((format!("xl/tables/table{}.xml", k + 1), evs));
+        my_parts.push((if flat && !t.abs { format!("tables/table{}.xml", k + 1) } else { format!("xl/tables/table{}.xml", k + 1) }, evs));
     }
     for (name, evs) in &my_parts {
         let mut r2 = cos.fork();
@@ -637,7 +643,25 @@ fn build_xlsx(spec: &XlsxSpec) -> BuiltX {
         let text = format!("<?xml version=\"1.0\" encoding=\"UTF-8\" standalone=\"yes\"?>\n{body}");
         book.extra_parts.push((name.clone(), text.into_bytes()));
     }
-    let built = book.build(&l);
+    let mut built = book.build(&l);
+    let mut sheet_paths = built.sheet_paths.clone();
+    if flat {
+        // move the sheet part to `xl/worksheets`, point the workbook relationship at it, zip again
+        let mut parts = built.parts.clone();
+        for (name, body) in parts.iter_mut() {
+            if name.eq_ignore_ascii_case("xl/worksheets/sheet1.xml") {
+                *name = "xl/worksheets".to_string();
+            } else if name.eq_ignore_ascii_case("xl/_rels/workbook.xml.rels") {
+                let text = String::from_utf8(body.clone()).expect("rels text");
+                assert!(text.contains("worksheets/sheet1.xml\""));
+                *body = text.replace("worksheets/sheet1.xml\"", "worksheets\"").into_bytes();
+            }
+        }
+        let mut zr = Rng::new(spec.layout ^ 0xF1A7);
+        built.bytes = xlsxw::zip_parts(&parts, l.compression, &mut zr);
+        built.parts = parts;
+        sheet_paths = vec!["xl/worksheets".to_string()];
+    }
     // splice the events of the raw extras into the sheet event lists
     let mut sheet_events = vec![];
     for (i, evs) in built.sheet_events.iter().enumerate() {
@@ -657,7 +681,7 @@ fn build_xlsx(spec: &XlsxSpec) -> BuiltX {
             parts.push((zname.clone(), evs.clone()));
         }
     }
-    BuiltX { bytes: built.bytes, sheet_events, sheet_paths: built.sheet_paths.clone(), parts, layout: l.describe() }
+    BuiltX { bytes: built.bytes, sheet_events, sheet_paths, parts, layout: l.describe() }
 }
 
 fn data_num(d: &Data) -> u64 {
@@ -1467,7 +1491,7 @@ fn gen_xlsx(rng: &mut Rng) -> XlsxSpec {
             kids: if rng.chance(1, 3) { 0 } else { rng.below(64) as u8 },
         });
     }
-    XlsxSpec { layout: if rng.chance(1, 8) { 0 } else { rng.next() | 1 }, sheets, tables }
+    XlsxSpec { layout: if rng.chance(1, 8) { 0 } else { rng.next() | 1 }, sheets, tables, flat: ns == 1 && rng.chance(1, 5) }
 }
 
 /// a big table (4096 … ~2^15 cells) on a used range of the same width whose columns are shifted against the
@@ -1519,7 +1543,7 @@ fn gen_xlsx_big(rng: &mut Rng) -> XlsxSpec {
         cnt: None,
         kids: if rng.chance(1, 2) { 0 } else { rng.below(64) as u8 },
     };
-    XlsxSpec { layout: if rng.chance(1, 4) { 0 } else { rng.next() | 1 }, sheets: vec![sheet], tables: vec![table] }
+    XlsxSpec { layout: if rng.chance(1, 4) { 0 } else { rng.next() | 1 }, sheets: vec![sheet], tables: vec![table], flat: false }
 }
 
 fn gen_xls(rng: &mut Rng) -> XlsSpec {
@@ -1680,6 +1704,11 @@ fn xlsx_candidates(s: &XlsxSpec) -> Vec<XlsxSpec> {
         c.layout = 0;
         v.push(c);
     }
+    if s.flat {
+        let mut c = s.clone();
+        c.flat = false;
+        v.push(c);
+    }
     v
 }
 
@@ -1796,6 +1825,10 @@ fn corpus() -> Vec<String> {
         r#"xlsx {"layout":0,"sheets":[{"name":"Sheet1","cells":[[0,0,1],[2,2,2]],"merges":[{"r":[0,0,1,1],"f":0},{"r":[3,3,3,5],"f":0}],"kids":63},{"name":"S2","cells":[],"merges":[],"kids":63}],"tables":[{"sheet":0,"name":"Table1","r":[0,0,2,2],"hdr":1,"tot":null,"cols":["a","b","c"],"abs":false}]}"#.into(),
         // seeded change C17-m8: a table of >= 4096 cells as wide as the used range but one column to the left
         r#"xlsx {"layout":0,"sheets":[{"name":"Big","cells":[[9,18,1],[1371,19,16],[1414,20,2]],"merges":[]}],"tables":[{"sheet":0,"name":"Big","r":[15,17,1412,19],"hdr":1,"tot":0,"cols":["Column1","Column2","Column3"],"abs":false}]}"#.into(),
+        // the sheet part directly in xl/ (workbook Target "worksheets"): a relative table target has no parent
+        // folder inside the archive path and resolves against the package root (was a panic in load_tables)
+        r#"xlsx {"layout":0,"sheets":[{"name":"Sheet1","cells":[[0,0,1],[1,0,2]],"merges":[{"r":[2,2,3,3],"f":0}]}],"tables":[{"sheet":0,"name":"Table1","r":[0,0,1,0],"hdr":1,"tot":null,"cols":["a"],"abs":false}],"flat":true}"#.into(),
+        r#"xlsx {"layout":0,"sheets":[{"name":"Sheet1","cells":[[0,0,1],[1,0,2]],"merges":[]}],"tables":[{"sheet":0,"name":"Table1","r":[0,0,1,0],"hdr":1,"tot":null,"cols":["a"],"abs":true}],"flat":true}"#.into(),
         // several sheets, regions at the far corner, attribution
         r#"xlsx {"layout":0,"sheets":[{"name":"A","cells":[],"merges":[{"r":[1048575,16383,1048575,16383],"f":0},{"r":[0,0,1048575,16383],"f":0}]},{"name":"B","cells":[[3,3,7]],"merges":[]},{"name":"C","cells":[],"merges":[{"r":[5,26,9,702],"f":3}],"mc_empty":true}],"tables":[]}"#.into(),
         // seeded change C17-m11: substreams stored in another order than the tabs (each BoundSheet8 points at its own)
@@ -1828,7 +1861,8 @@ fn main() {
          sheets x 0-30 merged regions anywhere up to XFD1048576, 0-4 tables: inside / overlapping / outside \
          the used range or on an empty sheet, headerRowCount absent/0/1 x totalsRowCount absent/0/1, 1-6 \
          columns with XML-special names, relative and absolute relationship targets, random physical \
-         layout; inert content that must not influence the result: further legal <table> attributes \
+         layout, single-sheet workbooks also with the sheet part directly in xl/ (Target = worksheets, table \
+         targets resolved against the package root); inert content that must not influence the result: further legal <table> attributes \
          (totalsRowShown, *DxfId, *CellStyle, published, tableType, insertRowShift, comment, prefixed \
          attributes) in shuffled order, name != displayName, autoFilter with filterColumn/sortState refs or \
          absent, tableColumn attributes and formula children, tableStyleInfo absent, extLst, whitespace; \
